@@ -5,6 +5,7 @@ import (
 	"crypto/sha256"
 	"fmt"
 	"os"
+	"os/exec"
 	"path/filepath"
 	"runtime"
 	"strconv"
@@ -343,6 +344,40 @@ func c07(run *ev.Run, tier string) {
 				}
 			}
 		})
+		// a builder that may use fewer processors (cpuset, affinity: what runtime.NumCPU reports,
+		// which GOMAXPROCS does not influence) produces the same bytes
+		if ts, err := exec.LookPath("taskset"); err == nil {
+			parallel(n, 8, func(i int) {
+				cc := cases[i]
+				if cc == nil || (i != 5 && i%8 != 3) {
+					return
+				}
+				root := cc.c.Root
+				cfgp := filepath.Join(root, "nfpm-cpus.yaml")
+				_ = os.WriteFile(cfgp, []byte(cc.yaml), 0o644)
+				env := []string{"PATH=" + os.Getenv("PATH"), "HOME=" + root, "TZ=UTC"}
+				for _, cpus := range []string{"0", "0-2"} {
+					for _, f := range formats {
+						b0, ok := cc.base[f]
+						if !ok {
+							continue
+						}
+						target := filepath.Join(root, "cpus."+f)
+						so, se, code, err := runCmd(nil, root, env, ts, "-c", cpus, bin, "package", "-f", cfgp, "-p", f, "-t", target)
+						atomic.AddInt64(&cliRuns, 1)
+						if err != nil || code != 0 {
+							run.Violate("C07/"+f+"/cli-build-failed", map[string]any{"case": i, "variant": "taskset -c " + cpus, "exit": code, "output": ev.Short(string(so)+string(se), 400)})
+							continue
+						}
+						got, _ := os.ReadFile(target)
+						_ = os.Remove(target)
+						if !bytes.Equal(got, b0) {
+							run.Violate("C07/"+f+"/bytes-differ/builder-with-fewer-processors", diffDetail(cc, f, "nfpm binary under taskset -c "+cpus, b0, got))
+						}
+					}
+				}
+			})
+		}
 		// SOURCE_DATE_EPOCH beyond 2038 (does not fit 32 bits) is a valid fixed mtime too
 		parallel(n, 8, func(i int) {
 			cc := cases[i]
